@@ -7,9 +7,9 @@ func init() {
 		explain: "Sync.Run is executed on real in-memory source and target repositories with symbolic, strictly increasing snapshot dates, symbolic prices and a symbolic default start date; per asset the target afterwards must hold its previous snapshots followed by exactly the source snapshots dated after its last date (or on/after the default when it had none), a second run must add nothing, an injected GetSince / Append failure for one asset must leave the others synchronised and make Run return an error; with one worker the partial-order certificate extends the result to all interleavings; with two workers the explored schedule is checked and the certificate over memory cells reports data races",
 		bounds: func(t string) string {
 			if t == "thorough" {
-				return "1..3 assets, 1..3 source snapshots each, every prefix length already in the target, explicit / implicit asset list, no fault / source fault / target fault on the first asset, 1 and 2 workers; file-system and SQL targets (models of C10): 1..2 assets, 1..2 snapshots, one worker, no fault"
+				return "1..3 assets, 1..3 source snapshots each, every prefix length already in the target, explicit / implicit asset list, no fault / source fault / target fault on the first asset, 1 and 2 workers; file-system (stubbed CSV layer, and real CSV layer over the virtual file system) and SQL targets (models of C10): 1..2 assets, 1..2 snapshots, one worker, no fault"
 			}
-			return "1..2 assets, 1..3 source snapshots each, every prefix length already in the target, explicit / implicit asset list, no fault / source fault / target fault, 1 and 2 workers; file-system and SQL targets (models of C10): 1..2 assets, 1..2 snapshots, one worker, no fault"
+			return "1..2 assets, 1..3 source snapshots each, every prefix length already in the target, explicit / implicit asset list, no fault / source fault / target fault, 1 and 2 workers; file-system (stubbed CSV layer, and real CSV layer over the virtual file system) and SQL targets (models of C10): 1..2 assets, 1..2 snapshots, one worker, no fault"
 		},
 		outside:     "more than two workers; with two workers three scheduling policies of the executor (lowest-id first, highest-id first, round robin) are explored, not every job assignment (the certificate is not issued there: two workers draining one jobs channel is legitimate nondeterminism); file-system / SQL repositories as Sync endpoints; cmd/indicator-sync flag parsing",
 		assumptions: append([]string{"day-number model of time.Time", "time.Sleep is a no-op; slog calls have no effect", realModeNote}, commonAssumptions...),
@@ -57,7 +57,7 @@ func init() {
 				}
 			}
 			// other kinds of target repository (their "asset not there" errors differ)
-			for tkind := 1; tkind <= 2; tkind++ {
+			for tkind := 1; tkind <= 4; tkind++ {
 				for na := 1; na <= 2; na++ {
 					for ns := 1; ns <= 2; ns++ {
 						for tm := 0; tm < 16; tm++ {
@@ -65,6 +65,9 @@ func init() {
 								continue
 							}
 							for explicit := 0; explicit <= 1; explicit++ {
+								if tkind == 4 && explicit == 1 {
+									continue // zero-length files register assets for the implicit list only
+								}
 								c := cs("H_C12_Target", tkind, na, ns, tm, explicit)
 								c.TrackMem = true
 								out = append(out, c)
